@@ -95,7 +95,7 @@ FailedClauses(p) ==
        IN Clause(Cardinality(ids) # NV(p), "distinct-ids")
           \cup Clause(\E t \in 1..F : \E k \in 1..3 : p.tris[t][k] \notin ids, "range")
           \cup Clause(\E t \in 1..F : p.tris[t][1] = p.tris[t][2] \/ p.tris[t][2] = p.tris[t][3] \/ p.tris[t][3] = p.tris[t][1], "degenerate")
-          \cup Clause(\E v \in ids : \A t \in 1..F : v # p.tris[t][1] /\ v # p.tris[t][2] /\ v # p.tris[t][3], "unused")
+          \cup Clause(ids \ { p.tris[x[1]][x[2]] : x \in (1..F) \X (1..3) } # {}, "unused")
           \cup Clause(Cardinality(de) # 3 * F, "edge-twice")
           \cup Clause((\E e \in de \cap be : Rev(e) \in de) \/ (\E e \in be : e \notin de), "boundary")
           \cup Clause(\E e \in de \ be : Rev(e) \notin de, "unmatched")
